@@ -7,6 +7,14 @@ CHECKS = {
    text="TLC exhaustively checks that the binary search of EncodeDictCap (transcribed action by action in spec/DictCap.tla) returns the declaratively defined least code for every capacity (2 KiB units; quick: 41 boundaries ±1, thorough: all 2^21 units x exact/inexact); the size table TLC prints is then compared with the real lzma.EncodeDictCap for all 2^32-1 capacities and lzma.DecodeDictCap for all 256 bytes, and with the dictionary byte ref parses out of emitted block headers; the observations are re-validated by TLC (TraceDictCap).",
    note="Trusted: TLC, the unit abstraction argued in DictCap.tla's header, ref's block-header parser. Exhaustive on the real code in both tiers.",
    technique="TLA+ spec + TLC exhaustive design check; spec-generated table replayed exhaustively on the real functions; observations validated by TLC"),
+ "C08": dict(cat="model_checking", design="§C08",
+   text="TLC generates every call history over {Write(payload class), Flush, Close} up to the length bound (module CallHist, with the contract's prediction per call) and checks the Writer2 life-cycle model (Lzma2Writer: NeverAhead, FlushNoop, ClosedComplete, liveness of Flush/Close) exhaustively; each history is replayed on the real lzma.Writer2 for a rotating set of boundary configurations; after every Flush and after Close the sink is decoded by the independent reference decoder and by lzma.Reader2 and compared with the bytes written so far; the recorded calls with the chunk events parsed from the sink deltas are validated by TLC against the life-cycle actions (TraceLzma2Writer).",
+   note="Trusted: TLC, internal/ref (independent LZMA2 decoder), attribution of chunks to calls by sink offsets. Histories are exhaustive to length 5 (quick) / 6 (thorough) over 6-8 tokens; payload contents are seeded samples.",
+   technique="TLA+ life-cycle spec; TLC-generated call histories replayed on the real writer; recorded traces validated by TLC; reference decoder as content oracle"),
+ "C16": dict(cat="model_checking", design="§C16",
+   text="The format's chunk rules (needDict/needProps) and the implementation-shaped S/L/U/R/T automaton are both in spec/Lzma2.tla; TLC proves them equivalent on all sequences (Equiv, StateMap) and generates every control-byte sequence up to the bound plus all 256 control bytes after every prefix of length <= 2, each with the predicted verdict (accept / reject at chunk i). Every sequence is realised as a concrete stream (coder state continued across chunks, rotating properties) and fed to the real lzma.Reader2 with two dictionary capacities: it must deliver exactly the legal prefix's bytes and fail at the offending chunk, or end cleanly iff the sequence is legal and ended. Writer side: chunk sequences and sizes parsed from real Writer2 output are validated by TLC (TraceLzma2Writer) including the 64 KiB / 2 MiB limits.",
+   note="Trusted: TLC, internal/ref serialiser+decoder (each realised sequence must round-trip through ref with the spec's verdict before the library is judged; disagreement is exit 2). Sequence space exhaustive to length 5 (quick) / 7 (thorough) over 9 representative control bytes.",
+   technique="TLA+ format automaton vs code-shaped automaton (TLC equivalence); exhaustive TLC-generated sequences replayed on the real reader; writer traces validated by TLC"),
 }
 NOT_YET = "check not built yet in this round (framework under construction; see DESIGN.md §8 build order)"
 def main():
